@@ -232,7 +232,7 @@ func reshareEc(r *Run, rng *rand.Rand, ks *ecKeySet, oldSub []int, newN, newT in
 }
 
 func runC04(r *Run, rng *rand.Rand, thorough bool) {
-	r.Rule = "whole resharing runs (EdDSA: old (n,t) ∈ {(2,1),(3,1),(3,2),(4,2)}, old subsets of size t+1 and t+2, new (n',t') with t' <,=,> t; ECDSA on the vendored key with proofs on/off) under every delivery strategy incl. pre-Start delivery; the ordering invariants are evaluated after EVERY start/delivery (every prefix is a cut point); chains of resharings followed by signing; non-trivial = one completed run; direct assertions: same group key, C03 clauses for the new committee, t'+1 new members sign, no old share erased and no new key emitted before every new member acknowledged"
+	r.Rule = "whole resharing runs (EdDSA: old (n,t) ∈ {(2,1),(3,1),(3,2),(4,2)}, old subsets of size t+1 and t+2, new (n',t') with t' <,=,> t; ECDSA on the vendored key with proofs on/off) under every delivery strategy incl. pre-Start delivery and, per message type, one held-back delivery of that type (one slow packet); the ordering invariants are evaluated after EVERY start/delivery (every prefix is a cut point); chains of resharings followed by signing; non-trivial = one completed run; direct assertions: same group key, C03 clauses for the new committee, t'+1 new members sign, no old share erased and no new key emitted before every new member acknowledged"
 	oldCfg := [][2]int{{2, 1}, {3, 1}}
 	if thorough {
 		oldCfg = [][2]int{{2, 1}, {3, 1}, {3, 2}, {4, 2}, {5, 2}}
@@ -306,6 +306,27 @@ func runC04(r *Run, rng *rand.Rand, thorough bool) {
 		checkEcdsaSignature(r, "ecdsa-resharing/sign-after", net, out, eks.keys[0].ECDSAPub, m, -1, nil)
 		if len(r.Samples) < 10 {
 			r.Samples = append(r.Samples, fmt.Sprintf("ecdsa resharing subset=%v new=(%d,%d) proofs=%v schedule=%s", sub, newCfg[0], newCfg[1], i%2 == 0, st.Name))
+		}
+	}
+	reshareHoldRuns(r, rng)
+}
+
+// reshareHoldRuns: resharing on both curves with one slow packet per message type (everything else in emission
+// order); every run is judged by reshareEc / reshareEd (completion, ordering invariants at every event, engine trace)
+func reshareHoldRuns(r *Run, rng *rand.Rand) {
+	eks := fixtureEcKeys()
+	subs := combos(eks.n, eks.t+1)
+	sub := subs[rng.Intn(len(subs))]
+	if ref := reshareEc(r, rng, eks, sub, 3, 1, false, Strategy{Name: "fifo", Pick: pickFIFO}); ref != nil {
+		for _, st := range holdStrategies(deliveredTypes(ref.net), rng) {
+			reshareEc(r, rng, eks, sub, 3, 1, false, st)
+		}
+	}
+	if ks, err := genEdKeys(rng, 3, 1, 0, Strategy{Name: "fifo", Pick: pickFIFO}); err == nil {
+		if ref := reshareEd(r, rng, ks, []int{0, 2}, 3, 1, Strategy{Name: "fifo", Pick: pickFIFO}); ref != nil {
+			for _, st := range holdStrategies(deliveredTypes(ref.net), rng) {
+				reshareEd(r, rng, ks, []int{0, 2}, 3, 1, st)
+			}
 		}
 	}
 }
